@@ -812,6 +812,11 @@ func c33SdAble(m c33Text) bool {
 		if seg.St != (c33Style{}) && strings.Contains(seg.Text, "\n") {
 			return false
 		}
+		// a style change inside a character (after a partition at a byte offset
+		// inside a rune) cannot be written in a per-character notation
+		if !utf8.ValidString(seg.Text) {
+			return false
+		}
 	}
 	for _, r := range s {
 		if r == '\n' {
